@@ -13,6 +13,7 @@ import UsualProofs.C14.Extra
 import UsualProofs.C14.Fnmatch
 import UsualProofs.C14.FnSound
 import UsualProofs.C14.FnComplete
+import UsualProofs.C14.FnPeriod
 /-!
 # C14 — compat replacements behave exactly like the platform or specified functions
 
@@ -24,10 +25,9 @@ keeps its length, i.e. nothing outside is touched).  Every theorem is followed b
 instantiating it on a non-trivial value.
 
 Partial (named `…_partial`, full statement in the comment next to it):
-* `fnmatch_sound_complete` is about the *reference* matcher.  For the loop of the code (`wfn`,
-  mirror of `wfnmatch`) soundness is proved (`fnmatch_code_sound`) and its bracket walk is proved
-  equal to the reference's (`match_class_spec`); that the single-retry loop finds EVERY match is
-  compared by the harness, not proved; with FNM_PERIOD the mirror is the specification;
+* (no longer partial: the loop of the code — `wfn`, mirror of `wfnmatch` — is proved sound AND
+  complete: `fnmatch_code_sound_complete` for the flag sets without FNM_PERIOD against `Matches`,
+  `fnmatch_period_sound_complete` for ALL flag sets against the position-aware `MatchesP`.)
 * (no longer partial: `pton6_spec` and `pton4_spec` characterise the complete accepted grammars.)
 -/
 namespace UsualProps.C14
@@ -268,28 +268,57 @@ theorem dirname_corners :
 
 example : dirname (some (bytesOf "a//b")) = some [97] := by decide
 
-/-! ## strtonum (OpenBSD) -/
+/-! ## strtonum (OpenBSD; repair F39) -/
 
-/-- `strtonum`: a value is returned only inside `[minval, maxval]` (errstr NULL, errno kept);
-    every error returns 0; a decimal numeral with optional `-` yields its value or the
-    "too small"/"too large" verdict by comparison with the bounds -/
+/-- `strtonum`, full classification (the OpenBSD text): with `minval > maxval` the result is
+    "invalid"; a string that is a decimal numeral (optional white space, optional sign, digits,
+    nothing else — `Numeral`) gives its value when that lies in `[minval, maxval]`, else 0 with
+    "too small"/"too large" — also when the digits overflow `long long`; EVERYTHING else is 0 with
+    "invalid".  A value is returned only inside the bounds; every error returns 0.  `errstr` is
+    NULL and `errno` kept exactly on success; ERANGE goes with too small/too large, EINVAL with
+    invalid. -/
 theorem strtonum_spec (s : Bytes) (lo hi : Int) :
+    (lo > hi → strtonum s lo hi = (0, .invalid)) ∧
+    (∀ v, Numeral (cstr s) v → lo ≤ hi → llMin ≤ lo → hi ≤ llMax →
+      strtonum s lo hi = (if v < lo then (0, .small) else if v > hi then (0, .large) else (v, .ok))) ∧
+    ((¬ ∃ v, Numeral (cstr s) v) → strtonum s lo hi = (0, .invalid)) ∧
     (∀ v, strtonum s lo hi = (v, .ok) → lo ≤ v ∧ v ≤ hi) ∧
     ((strtonum s lo hi).2 ≠ .ok → (strtonum s lo hi).1 = 0) ∧
-    (lo > hi → strtonum s lo hi = (0, .invalid)) ∧
-    (∀ (neg : Bool) (ds t : Bytes), ds ≠ [] → (∀ d ∈ ds, isDigit d = true) →
-      lo ≤ hi → llMin ≤ lo → hi ≤ llMax →
-      strtonum ((if neg then [45] else []) ++ ds ++ 0 :: t) lo hi =
-        (let v : Int := if neg then -(Int.ofNat (digitsVal ds)) else Int.ofNat (digitsVal ds)
-         if v < lo then (0, .small) else if v > hi then (0, .large) else (v, .ok))) :=
-  ⟨fun v h => strtonum_ok_range s lo hi v h, strtonum_err_zero s lo hi,
-   fun h => by simp [strtonum, h],
-   fun neg ds t h1 h2 h3 h4 h5 => strtonum_decimal neg ds t h1 h2 lo hi h3 h4 h5⟩
+    (∀ e : NumErr, (e.errstr = none ↔ e = .ok) ∧ (e.errno = none ↔ e = .ok) ∧
+      (e.errno = some "ERANGE" ↔ e = .small ∨ e = .large) ∧ (e.errno = some "EINVAL" ↔ e = .invalid) ∧
+      (e.errstr = some "invalid" ↔ e = .invalid)) :=
+  ⟨fun h => by simp [strtonum, h],
+   fun v hn h1 h2 h3 => strtonum_numeral s v lo hi hn h1 h2 h3,
+   strtonum_not_numeral s lo hi,
+   fun v h => strtonum_ok_range s lo hi v h, strtonum_err_zero s lo hi,
+   fun e => by cases e <;> simp [NumErr.errstr, NumErr.errno]⟩
 
 example : strtonum (bytesOf " -42" ++ [0]) (-100) 100 = (-42, .ok) ∧
+    strtonum (bytesOf "+7" ++ [0]) 0 9 = (7, .ok) ∧
     strtonum (bytesOf "101" ++ [0]) (-100) 100 = (0, .large) ∧
     strtonum (bytesOf "42x" ++ [0]) (-100) 100 = (0, .invalid) ∧
-    strtonum (bytesOf "99999999999999999999" ++ [0]) llMin llMax = (0, .large) := by decide
+    strtonum (bytesOf "99999999999999999999" ++ [0]) llMin llMax = (0, .large) ∧
+    Numeral (bytesOf " -42") (-42) := by
+  refine ⟨by decide, by decide, by decide, by decide, by decide, ?_⟩
+  exact ⟨[32], [45], [52, 50], rfl, by decide, Or.inr (Or.inr rfl), by decide, by decide, by decide⟩
+
+/-- the unrepaired order (ERANGE tested before trailing garbage) violates it: digits that
+    overflow followed by garbage were reported "too large" instead of "invalid" -/
+theorem strtonum_old_counterexample :
+    strtonumOld (bytesOf "99999999999999999999x" ++ [0]) 0 100 = (0, .large) ∧
+    strtonum (bytesOf "99999999999999999999x" ++ [0]) 0 100 = (0, .invalid) ∧
+    ¬ ∃ v, Numeral (bytesOf "99999999999999999999x") v := by
+  refine ⟨by decide, by decide, ?_⟩
+  rintro ⟨v, hn⟩
+  have h1 := (strtonum_spec (bytesOf "99999999999999999999x" ++ [0]) llMin llMax).2.1 v
+    (by simpa [cstr, bytesOf] using hn) (by decide) (by decide) (by decide)
+  have h2 : strtonum (bytesOf "99999999999999999999x" ++ [0]) llMin llMax = (0, .invalid) := by decide
+  rw [h2] at h1
+  split at h1
+  · cases h1
+  · split at h1 <;> cases h1
+
+example : strtonumOld (bytesOf "12" ++ [0]) 0 100 = (12, .ok) := by decide
 
 /-! ## ffs / fls families, reallocarray -/
 
@@ -538,10 +567,10 @@ theorem fnmatch_sound_complete (fl : FnFlags) (pat str : List Nat) :
     split <;> simp_all
   · split <;> simp
 
-example : Matches (FnFlags.ofNat 1) [.star, .lit 46, .lit 99] (bytesOf "ab.c") ∧
-    ¬ Matches (FnFlags.ofNat 1) [.star, .lit 46, .lit 99] (bytesOf "a/b.c") ∧
+example : Matches (FnFlags.ofNat 1) [.star true, .lit 46, .lit 99] (bytesOf "ab.c") ∧
+    ¬ Matches (FnFlags.ofNat 1) [.star true, .lit 46, .lit 99] (bytesOf "a/b.c") ∧
     tokenize (FnFlags.ofNat 0) 9 (bytesOf "[!a-c]*\\?") =
-      [.cls true [.range 97 99], .star, .lit 63] ∧
+      [.cls true [.range 97 99], .star false, .lit 63] ∧
     fnmatchSpec (FnFlags.ofNat 0) (bytesOf "[!a-c]*\\?") (bytesOf "xyz?") = 0 ∧
     fnmatchSpec (FnFlags.ofNat 16) (bytesOf "a*") (bytesOf "ab/c") = 0 ∧
     wfnmatch (FnFlags.ofNat 4) (bytesOf "*.c") (bytesOf ".c") = 1 := by
@@ -619,5 +648,44 @@ theorem fnmatch_code_sound_complete (fl : FnFlags) (hper : fl.period = false) (p
 
 example : wfnmatch (FnFlags.ofNat 1) (bytesOf "*x/[!b]*c") (bytesOf "axx/acac") = 0 ∧
     wfnmatch (FnFlags.ofNat 1) (bytesOf "*x/[!b]*c") (bytesOf "ax/x/ac") = 1 := by decide
+
+/-- FNM_PERIOD INCLUDED.  `MatchesP` is the position-aware declarative semantics for every flag
+    set: as `Matches`, but (1) a wildcard (`?`, bracket, `*`) never consumes a LEADING period under
+    FNM_PERIOD (leading = start of the string, or right after `/` under FNM_PATHNAME), and (2) a
+    `*` directly followed by an unescaped `.` cannot start where a wildcard could consume nothing
+    (end of string, `/` under FNM_PATHNAME, leading period under FNM_PERIOD) — the glibc-style
+    reading of `*.` that the code implements.  The mirror of the code's loop answers 0 EXACTLY
+    when `MatchesP` holds, ends with 0 or 1, and the specification `fnmatchSpec` (reference matcher
+    without FNM_PERIOD, mirror with it) is therefore declarative for all flag sets; without
+    FNM_PERIOD the two semantics agree on every tokenised pattern. -/
+theorem fnmatch_period_sound_complete (fl : FnFlags) (pat str : List Nat)
+    (hp : ∀ c ∈ pat, c ≠ 0) (hs : ∀ c ∈ str, c ≠ 0) :
+    (wfnmatch fl pat str = 0 ↔ MatchesP fl none (tokenize fl (pat.length + 1) pat) str) ∧
+    (wfnmatch fl pat str = 0 ∨ wfnmatch fl pat str = 1) ∧
+    (fnmatchSpec fl pat str = 0 ↔ MatchesP fl none (tokenize fl (pat.length + 1) pat) str) ∧
+    (fl.period = false →
+      (MatchesP fl none (tokenize fl (pat.length + 1) pat) str ↔
+        Matches fl (tokenize fl (pat.length + 1) pat) str)) := by
+  have h1 : wfnmatch fl pat str = 0 ↔ MatchesP fl none (tokenize fl (pat.length + 1) pat) str :=
+    ⟨wfnmatch_soundP fl pat str hp hs, wfnmatch_completeP fl pat str hp hs⟩
+  refine ⟨h1, wfnmatch_01 fl pat str hs, ?_, ?_⟩
+  · cases hper : fl.period with
+    | true => unfold fnmatchSpec; simp only [hper, if_true]; exact h1
+    | false =>
+      rw [← (fnmatch_code_sound_complete fl hper pat str hp hs).2.2.2]; exact h1
+  · intro hper
+    rw [← h1]
+    exact (fnmatch_code_sound_complete fl hper pat str hp hs).1
+
+example : wfnmatch (FnFlags.ofNat 4) (bytesOf "*.c") (bytesOf ".c") = 1 ∧
+    ¬ MatchesP (FnFlags.ofNat 4) none [.star true, .lit 46, .lit 99] (bytesOf ".c") ∧
+    MatchesP (FnFlags.ofNat 4) none [.lit 46, .star false] (bytesOf ".c") ∧
+    wfnmatch (FnFlags.ofNat 5) (bytesOf "a/?b") (bytesOf "a/.b") = 1 ∧
+    wfnmatch (FnFlags.ofNat 4) (bytesOf "a/?b") (bytesOf "a/.b") = 0 := by
+  refine ⟨by decide, ?_, ?_, by decide, by decide⟩
+  · intro h
+    cases h with
+    | starDot _ _ _ hd _ => exact absurd hd (by decide)
+  · exact .lit _ 46 46 _ _ (by decide) (.starS _ 99 _ _ (by decide) (.star0 _ _ _ (.nil _)))
 
 end UsualProps.C14
